@@ -450,8 +450,10 @@ def all_guard_functions(P):
     """{(tu, fn): set(tuples)} for every function of every TU that contains a reject guard"""
     res = {}
     for tu in P.tus():
+        direct = {f.name for f in P.funcs(tu) if any(True for _ in f.calls('imb_set_errno'))}
         for f in P.funcs(tu):
-            has = any(ev['e'].get('fn') == 'imb_set_errno' for _, _, ev in f.calls('imb_set_errno'))
+            # its own reject guards, or those of a helper it delegates to
+            has = f.name in direct or any(ev['e'].get('fn') in direct for _, _, ev in f.calls())
             if not has:
                 continue
             tups = guard_tuples(P, tu, f)
